@@ -369,6 +369,33 @@ func buildMsgCorpus(t lnwire.MessageType, nMut, nVal int, thorough bool) *codecC
 			desc:  map[string]any{"gen": "rapid", "type": int(t), "seed": k}})
 	}
 
+	// (2b) address kinds: the generator fills []net.Addr fields with tcp4 / tcp6 only, so
+	// that no byte-level edit ever lands inside a tor v2 / v3, DNS or opaque descriptor.
+	// For every message type with a []net.Addr field: the fullest example with that field
+	// holding one address of every kind the codec knows (and one with a maximal hostname);
+	// well-formed values with the full byte-level neighbourhood.
+	if fullest >= 0 {
+		for _, spec := range addrKindSpecs {
+			spec := spec
+			k := fullest
+			gen := func() any {
+				m, _ := randMsg(t, k)
+				if !setAddrFields(m, spec) {
+					return nil
+				}
+				return m
+			}
+			var probe any
+			safely(func() { probe = gen() })
+			if probe == nil {
+				break
+			}
+			d := map[string]any{"gen": "addrkinds", "type": int(t), "seed": k, "spec": spec}
+			encDesc = d
+			add(seed{name: "addrkinds-" + spec, full: enc(gen()), gen: gen, wellFormed: true, desc: d})
+		}
+	}
+
 	// (3) every present/absent combination of the optional fields (<= 2^6), derived
 	// from the examples by clearing fields.
 	masksSeen := map[int]bool{}
@@ -464,6 +491,26 @@ func buildMsgCorpus(t lnwire.MessageType, nMut, nVal int, thorough bool) *codecC
 		}
 	}
 	return cc
+}
+
+// addrKindSpecs: address lists (syntax of addrsOf, varlen_test.go) used as extra seeds.
+var addrKindSpecs = []string{"tcp4,tcp6,v2,v3,dns12,opq9", "dns255,tcp4"}
+
+// setAddrFields sets every exported []net.Addr field of m; false if there is none.
+func setAddrFields(m any, spec string) bool {
+	rv := reflect.ValueOf(m)
+	if rv.Kind() != reflect.Ptr || rv.IsNil() || rv.Elem().Kind() != reflect.Struct {
+		return false
+	}
+	found := false
+	for i := 0; i < rv.Elem().NumField(); i++ {
+		f := rv.Elem().Field(i)
+		if f.Kind() == reflect.Slice && f.Type().Elem() == netAddrType && f.CanSet() {
+			f.Set(reflect.ValueOf(addrsOf(spec)))
+			found = true
+		}
+	}
+	return found
 }
 
 // maxValue returns a generator of a value of type t whose body is bodyLen bytes.
